@@ -103,7 +103,10 @@ func main() {
 	pipe = startSpecPipe()
 
 	corpus := buildCorpus()
-	nGen := f.N(60000, 2000000)
+	nGen := f.N(60000, 3000000)
+	if f.Tier == "thorough" {
+		bigDiv = 12
+	}
 	total := len(corpus) + nGen
 	exh := 0
 	if f.Tier == "thorough" {
